@@ -5,7 +5,7 @@
    None); [H] is SHA-256.  [wf_X d x = true] collects what every Go-constructed object satisfies: ids
    below 2^32 and views below 2^64 (Go's uint32 / uint64), 32-byte hashes, timestamps with
    0 <= nanos < 10^9 and int64 seconds, BLS signature bytes that decode to themselves, and for a
-   partial certificate a non-nil signature whose first participant is the recorded signer.
+   partial certificate the recorded signer being the signature's first participant (0 if there is none).
    Timeout messages and proposals are taken as the receiving server reconstructs them
    (server.go: protobuf fields plus the sender id of the authenticated connection). *)
 From HS Require Import Base.Prelude Wire.WireModel Wire.WireProofs.
